@@ -230,6 +230,22 @@ def check_managed_thread(chk, prog):
                               for x in walk(c))
                           for c in f.calls())
         chk.check(atomic_read, 'R2d', f.name, 'isActive reads the flag atomically', f.loc())
+        # ... and reports nothing but the flag: any other state it consults (the std::thread handle via joinable() /
+        # get_id(), other members) is not synchronised with join()/detach()/swap() of the owner and changes the
+        # answer while the function is still running
+        others = []
+        for c in f.calls():
+            q = c.get('callee', '')
+            if q.startswith('std::atomic') or q.startswith('std::__atomic_base') or 'atomic' in q.split('::')[1:2]:
+                continue
+            others.append(q.split('(')[0])
+        for x in f.walk():
+            if x.get('k') == 'MemberExpr' and x.get('ref', {}).get('dk') == 'Field' and \
+                    'atomic' not in (x.get('t') or '') and 'atomic' not in (x.get('ref', {}).get('dt') or ''):
+                others.append('member ' + x['ref'].get('name', '?'))
+        chk.check(not others, 'R2d', f.name, 'isActive reports the atomic flag and nothing else', f.loc(),
+                  'it also consults %s: unsynchronised with join()/detach()/swap() of the thread handle, and the '
+                  'answer no longer follows the running function' % ', '.join(sorted(set(others))))
 
 
 def run(chk):
